@@ -50,6 +50,8 @@ struct World {
     std::vector<Sent> sent[MAXT + 1];
     std::vector<std::string> written;
     std::vector<int> written_on;
+    std::vector<bool> written_in_cleanup; // the line reached the writer while aws_log_channel_clean_up was running
+    bool cleaning = false;
     bool cleaned = false;
     std::vector<uint64_t> delays;
     size_t di = 0;
@@ -74,6 +76,7 @@ static int writer_write(struct aws_log_writer *, const struct aws_string *out) {
     if (w.cleaned) w.ctx->note_fail("a line was written after aws_log_channel_clean_up returned");
     w.written.emplace_back((const char *)aws_string_bytes(out), out->len);
     w.written_on.push_back(ds::self());
+    w.written_in_cleanup.push_back(w.cleaning);
     if (!w.delays.empty()) {
         uint64_t d = w.delays[w.di++ % w.delays.size()];
         for (uint64_t i = 0; i < d; i++) ds::point();
@@ -195,6 +198,7 @@ static void run(const Case &c, Ctx &ctx) {
                 if (membuf[i] == '\n') {
                     w.written.emplace_back(membuf + start, i + 1 - start);
                     w.written_on.push_back(-1);
+                    w.written_in_cleanup.push_back(false);
                     start = i + 1;
                 }
             if (start != memsz) ctx.note_fail(fmt("the stream ends with %zu bytes that are not newline-terminated", memsz - start));
@@ -205,7 +209,9 @@ static void run(const Case &c, Ctx &ctx) {
             free(membuf);
             return;
         }
+        w.cleaning = true;
         aws_log_channel_clean_up(&channel); // must flush everything already accepted
+        w.cleaning = false;
         w.cleaned = true;
         size_t now_written = w.written.size();
         if (now_written != total) ctx.note_fail(fmt("clean-up returned with %zu of %zu accepted lines written", now_written, total));
@@ -239,7 +245,11 @@ static void run(const Case &c, Ctx &ctx) {
         PBT_CHECK(line.compare(0, lp.size(), lp) == 0, "level prefix of t%d:%d wrong: [%s]", t, seq, line.substr(0, 40).c_str());
         PBT_CHECK(line.find("] [" + s.tid + "] [aws-c-common]") != std::string::npos, "thread id / subject of t%d:%d wrong: [%s]", t, seq,
                   line.substr(0, 100).c_str());
-        if (background) PBT_CHECK(w.written_on[i] == bg_thread, "line written on t%d, background thread is t%d", w.written_on[i], bg_thread);
+        // a sender must not do the writing itself; the statement leaves open whether what is still queued at clean-up is
+        // written by the background thread or by the thread that cleans up
+        if (background)
+            PBT_CHECK(w.written_on[i] == bg_thread || w.written_in_cleanup[i], "line written on t%d outside clean-up, background thread is t%d",
+                      w.written_on[i], bg_thread);
     }
     for (int t = 0; t <= w.nt; t++) PBT_CHECK(next[t] == w.sent[t].size(), "thread %d: %zu of %zu accepted lines written", t, next[t], w.sent[t].size());
     for (auto &ti : ds::threads())
